@@ -140,6 +140,22 @@ def r2_connect_packets(ctx, fam):
                       where=where(f, e.node))
     if not n:
         ctx.bad(construct, 'no-connect', 'no CONNECT packet is sent', where(f))
+    # the auth value (possibly a callable issuing one-time tokens) is
+    # resolved once per transport connection, not once per namespace
+    run2 = run_function(f, m, max_iter=2)
+    worst = 0
+    for p in run2.paths:
+        k = len(sends(run2, p))
+        ev = [e for e in p.calls('_get_real_value')
+              if 'connection_auth' in U(e.expr)]
+        if k >= 2:
+            worst = max(worst, len(ev))
+    ctx.check(worst <= 1, construct, 'the auth payload is resolved once per '
+              'connection', key='auth-once', reason='with two requested '
+              'namespaces the auth value is resolved %d times: a callable '
+              'auth (token issuer, nonce) runs once per namespace and the '
+              'namespaces of one connection are sent different payloads'
+              % worst, where=where(f))
     g = m.method(C, 'connect')
     # the default namespace list (namespaces=None) is drawn from two
     # registries that may both name a namespace: it has to be built through a
